@@ -189,3 +189,113 @@ pub fn diff_moves(lib: &[RefMove], reference: &[RefMove]) -> Option<String> {
         dup.iter().map(|m| m.uci()).collect::<Vec<_>>().join(",")
     ))
 }
+
+// ------------------------------------------------------------------------------------------
+// apply/undo walks shared by C04 / C05 / C19
+
+pub fn gen_walk_case(cur: &mut Cursor) -> Value {
+    let (p, src) = gen_position(cur);
+    let n = 8 + cur.below(120);
+    let path: Vec<u8> = (0..n).map(|_| cur.u8()).collect();
+    json!({"fen": p.fen(), "src": src, "path": path})
+}
+
+pub struct WalkReport {
+    pub max_depth: usize,
+    pub pushes: usize,
+    pub pops: usize,
+    pub illegal_rollbacks: usize,
+    pub nulls: usize,
+    pub specials: usize,
+    pub captures: usize,
+}
+
+/// Interprets a byte path as a properly nested make/unmake sequence over semilegal and null moves.
+/// `on_pos` is called on every position reached by a legal or null move; `strict_undo` compares the
+/// full snapshot after every unmake with the snapshot taken before the matching make.
+pub fn walk(
+    b: &Board,
+    path: &[u8],
+    strict_undo: bool,
+    on_pos: &mut dyn FnMut(&Board) -> Result<(), Failure>,
+) -> Result<WalkReport, Failure> {
+    use owlchess::movegen::semilegal;
+    use owlchess::moves::{make_move_unchecked, unmake_move_unchecked, RawUndo};
+    let mut cur = b.clone();
+    let mut stack: Vec<(Snapshot, Move, RawUndo)> = Vec::new();
+    let mut rep = WalkReport { max_depth: 0, pushes: 0, pops: 0, illegal_rollbacks: 0, nulls: 0, specials: 0, captures: 0 };
+    for &byte in path {
+        if byte < 56 && !stack.is_empty() {
+            let (snap, mv, u) = stack.pop().unwrap();
+            unsafe { unmake_move_unchecked(&mut cur, mv, u) };
+            rep.pops += 1;
+            if strict_undo {
+                let now = snapshot(&cur);
+                if now != snap {
+                    return Err(Failure::new(format!("undo of {} did not restore the position: {}", mv_desc(&mv), snap_diff(&now, &snap))));
+                }
+            }
+            continue;
+        }
+        if byte == 255 && !cur.is_check() {
+            let snap = snapshot(&cur);
+            let u = unsafe { make_move_unchecked(&mut cur, Move::NULL) };
+            stack.push((snap, Move::NULL, u));
+            rep.nulls += 1;
+            rep.pushes += 1;
+            on_pos(&cur)?;
+            continue;
+        }
+        let ms = semilegal::gen_all(&cur);
+        if ms.is_empty() {
+            continue;
+        }
+        let mv = ms[(byte as usize * ms.len()) >> 8];
+        let snap = snapshot(&cur);
+        let is_cap = cur.get(mv.dst()) != Cell::EMPTY || mv.kind() == owlchess::MoveKind::Enpassant;
+        let u = unsafe { make_move_unchecked(&mut cur, mv) };
+        if cur.is_opponent_king_attacked() {
+            unsafe { unmake_move_unchecked(&mut cur, mv, u) };
+            rep.illegal_rollbacks += 1;
+            if strict_undo {
+                let now = snapshot(&cur);
+                if now != snap {
+                    return Err(Failure::new(format!(
+                        "rollback of the illegal semilegal move {} did not restore the position: {}",
+                        mv_desc(&mv),
+                        snap_diff(&now, &snap)
+                    )));
+                }
+            }
+            continue;
+        }
+        stack.push((snap, mv, u));
+        rep.pushes += 1;
+        if mv.kind() != owlchess::MoveKind::Simple {
+            rep.specials += 1;
+        }
+        if is_cap {
+            rep.captures += 1;
+        }
+        rep.max_depth = rep.max_depth.max(stack.len());
+        on_pos(&cur)?;
+    }
+    while let Some((snap, mv, u)) = stack.pop() {
+        unsafe { unmake_move_unchecked(&mut cur, mv, u) };
+        rep.pops += 1;
+        if strict_undo {
+            let now = snapshot(&cur);
+            if now != snap {
+                return Err(Failure::new(format!("final unwinding: undo of {} did not restore the position: {}", mv_desc(&mv), snap_diff(&now, &snap))));
+            }
+        }
+    }
+    if strict_undo && snapshot(&cur) != snapshot(b) {
+        return Err(Failure::new("after unwinding everything the board differs from the start".to_string()));
+    }
+    Ok(rep)
+}
+
+pub fn case_path(case: &Value) -> Vec<u8> {
+    case.get("path").and_then(|p| p.as_array()).map(|a| a.iter().map(|x| x.as_u64().unwrap_or(0) as u8).collect()).unwrap_or_default()
+}
